@@ -11,6 +11,9 @@ use serde_json::{json, Value};
 enum Op3 {
     Annotate(Kind, u32, u32),
     Add(Kind, u32),
+    /// annotate with ANOTHER name than the record's (only issued with an absent term: the call fails and must not
+    /// rename the record either)
+    AnnotateOtherName(Kind, u32, u32),
 }
 
 fn rec_name(kind: Kind, id: u32) -> String {
@@ -22,11 +25,12 @@ impl Op3 {
         match self {
             Op3::Annotate(k, r, t) => format!("annotate_{}({r}, {t})", k.name()),
             Op3::Add(k, r) => format!("add_{}({r})", k.name()),
+            Op3::AnnotateOtherName(k, r, t) => format!("annotate_{}({r}, name \"other\", {t})", k.name()),
         }
     }
     fn names_absent(&self, present: &[u32]) -> bool {
         match self {
-            Op3::Annotate(_, _, t) => !present.contains(t),
+            Op3::Annotate(_, _, t) | Op3::AnnotateOtherName(_, _, t) => !present.contains(t),
             Op3::Add(..) => false,
         }
     }
@@ -50,6 +54,9 @@ fn execute(terms: &[(u32, &str)], p2: &[(u32, u32)], p3: &[Op3]) -> (Vec<bool>, 
             Op3::Annotate(Kind::Gene, r, t) => r3.push(b.annotate_gene(r.into(), &rec_name(Kind::Gene, r), t.into()).is_ok()),
             Op3::Annotate(Kind::Omim, r, t) => r3.push(b.annotate_omim_disease(r.into(), &rec_name(Kind::Omim, r), t.into()).is_ok()),
             Op3::Annotate(Kind::Orpha, r, t) => r3.push(b.annotate_orpha_disease(r.into(), &rec_name(Kind::Orpha, r), t.into()).is_ok()),
+            Op3::AnnotateOtherName(Kind::Gene, r, t) => r3.push(b.annotate_gene(r.into(), "other", t.into()).is_ok()),
+            Op3::AnnotateOtherName(Kind::Omim, r, t) => r3.push(b.annotate_omim_disease(r.into(), "other", t.into()).is_ok()),
+            Op3::AnnotateOtherName(Kind::Orpha, r, t) => r3.push(b.annotate_orpha_disease(r.into(), "other", t.into()).is_ok()),
             Op3::Add(Kind::Gene, r) => {
                 b.add_gene(&rec_name(Kind::Gene, r), r.into());
                 r3.push(true);
@@ -90,6 +97,14 @@ fn rust_of(p2: &[(u32, u32)], p3: &[Op3]) -> String {
                 };
                 s.push_str(&format!("let _ = b.{f}({r}u32.into(), \"{}\", {t}u32.into());\n", rec_name(*k, *r)));
             }
+            Op3::AnnotateOtherName(k, r, t) => {
+                let f = match k {
+                    Kind::Gene => "annotate_gene",
+                    Kind::Omim => "annotate_omim_disease",
+                    Kind::Orpha => "annotate_orpha_disease",
+                };
+                s.push_str(&format!("let _ = b.{f}({r}u32.into(), \"other\", {t}u32.into());\n"));
+            }
             Op3::Add(k, r) => {
                 let f = match k {
                     Kind::Gene => "add_gene",
@@ -120,16 +135,20 @@ fn check_history(ctx: &mut Ctx, p2: &[(u32, u32)], p3: &[Op3]) {
         }
     };
     // (a) Err exactly when the call names the absent term
+    // (a call that REPEATS an earlier successful call may be refused as well - a duplicate-link error is not
+    // excluded by the property; it then simply counts as a failing call that must have no effect)
     for (i, &(p, c)) in p2.iter().enumerate() {
         let want_ok = present.contains(&p) && present.contains(&c);
-        if r2[i] != want_ok {
+        let repeat = p2[..i].iter().enumerate().any(|(j, q)| *q == (p, c) && r2[j]);
+        if r2[i] != want_ok && !(want_ok && repeat) {
             ctx.violation("Builder::add_parent", if want_ok { "returns an error although both terms exist" } else { "returns Ok although a referenced term does not exist" }, json!({"case": case(), "call": format!("add_parent({p},{c})")}));
             return;
         }
     }
     for (i, op) in p3.iter().enumerate() {
         let want_ok = !op.names_absent(&present);
-        if r3[i] != want_ok {
+        let repeat = p3[..i].iter().enumerate().any(|(j, q)| q == op && r3[j]);
+        if r3[i] != want_ok && !(want_ok && repeat) {
             ctx.violation("Builder::annotate_*", if want_ok { "returns an error although the term exists" } else { "returns Ok although the term does not exist" }, json!({"case": case(), "call": op.describe()}));
             return;
         }
@@ -155,6 +174,8 @@ fn check_history(ctx: &mut Ctx, p2: &[(u32, u32)], p3: &[Op3]) {
             match *op {
                 Op3::Annotate(k, r, t) => f.anns.push(Facts::ann(k, r, &rec_name(k, r), Some(t))),
                 Op3::Add(k, r) => f.anns.push(Facts::ann(k, r, &rec_name(k, r), None)),
+                // only issued with absent terms; if it succeeded the Err/Ok check above has already reported it
+                Op3::AnnotateOtherName(k, r, t) => f.anns.push(Facts::ann(k, r, &rec_name(k, r), Some(t))),
             }
         }
     }
@@ -228,15 +249,20 @@ pub fn run(ctx: &mut Ctx) {
         }
         p3_alpha.push(Op3::Add(k, 7));
     }
+    // the failing call that also carries another name (after the 21 symbols, so the state-graph space keeps its 21)
+    let mut p3_hist = p3_alpha.clone();
+    for k in [Kind::Gene, Kind::Omim, Kind::Orpha] {
+        p3_hist.push(Op3::AnnotateOtherName(k, 7, 3));
+    }
     let d3 = if thorough { 4 } else { 3 };
     let p2_seqs = sequences(&p2_alpha, 3);
-    let p3_seqs = sequences(&p3_alpha, d3);
-    ctx.space("histories/AllTerms<=3 x ConnectedTerms", &format!("{} add_parent sequences (length <= 3 over 5 calls) x {} annotate/add sequences (length <= {d3} over 21 calls){}", p2_seqs.len(), p3_seqs.len(), if thorough { "" } else { "; quick tier: length-3 add_parent sequences are combined with annotate/add sequences of length <= 2" }));
+    let p3_seqs = sequences(&p3_hist, d3);
+    ctx.space("histories/AllTerms<=3 x ConnectedTerms", &format!("{} add_parent sequences (length <= 3 over 5 calls) x {} annotate/add sequences (length <= {d3} over 24 calls, three of them failing calls that carry another name){}", p2_seqs.len(), p3_seqs.len(), if thorough { "" } else { "; quick tier: length-3 add_parent sequences are combined with annotate/add sequences of length <= 2" }));
     // one case per (phase-2 sequence, block of phase-3 sequences)
     let block = 512usize;
     // quick tier: AllTerms sequences of length 3 are combined with ConnectedTerms sequences of length <= 2 only
     // (length <= 2 x length <= 3 and length <= 3 x length <= 2 are complete; the full product is the thorough tier)
-    let short_len = 1 + p3_alpha.len() + p3_alpha.len() * p3_alpha.len();
+    let short_len = 1 + p3_hist.len() + p3_hist.len() * p3_hist.len();
     for p2 in &p2_seqs {
         let limit = if !thorough && p2.len() == 3 { short_len } else { p3_seqs.len() };
         let mut start = 0;
@@ -256,9 +282,28 @@ pub fn run(ctx: &mut Ctx) {
         }
     }
 
+    // ---- add_parent calls in which BOTH ids are absent (the same absent id twice, two different absent ids)
+    {
+        let p2_both: [(u32, u32); 7] = [(1, 2), (1, 3), (3, 1), (2, 3), (3, 2), (3, 3), (3, 4)];
+        let a: Vec<Vec<(u32, u32)>> = sequences(&p2_both, 2).into_iter().filter(|q| q.iter().any(|c| *c == (3, 3) || *c == (3, 4))).collect();
+        let b = sequences(&p3_hist, 2);
+        ctx.space("histories/both-ids-absent", &format!("{} add_parent sequences (<= 2 over 7 calls, at least one call naming two absent ids) x {} annotate/add sequences (<= 2 over 24 calls)", a.len(), b.len()));
+        for p2 in &a {
+            if !ctx.take() {
+                continue;
+            }
+            ctx.state();
+            for p3 in &b {
+                check_history(ctx, p2, p3);
+            }
+            ctx.sample(|| json!({"AllTerms": p2.iter().map(|(p, c)| format!("add_parent({p},{c})")).collect::<Vec<_>>()}));
+        }
+    }
+
     // ---- the same histories with special absent ids: HP:0000000 (the arena's internal placeholder slot), the
     // last id of the id table, and ids beyond the table (any u32 is a legal HpoTermId)
-    for absent in [0u32, 9_999_999, 10_000_000, u32::MAX] {
+    // ... and ids that fold onto the present id 1 when a key is narrowed to 20, 23, 24 or 31 bits
+    for absent in [0u32, 9_999_999, 10_000_000, u32::MAX, 1_048_577, 8_388_609, 16_777_217, 2_147_483_649] {
         let p2_abs: [(u32, u32); 5] = [(1, 2), (1, absent), (absent, 1), (2, absent), (absent, 2)];
         let mut p3_abs: Vec<Op3> = vec![];
         for k in [Kind::Gene, Kind::Omim, Kind::Orpha] {
@@ -504,6 +549,79 @@ pub fn run(ctx: &mut Ctx) {
             }
             ctx.sample(|| json!({"dag": d.describe(), "name_assignments": 6, "record_orders": 6}));
         }
+    }
+
+    // ---- the text loaders use the same builder: a gene / disease row naming a term that hp.obo does not define
+    // must not yield an ontology that hands the id out (the loaders document HpoError::DoesNotExist)
+    {
+        ctx.space("text-loader/rows-naming-absent-terms", "hp.obo with terms 1, 118, 200; genes_to_phenotype.txt / phenotype_to_genes.txt / phenotype.hpoa with one extra row naming HP:0000300 or HP:9999999 (absent) as first, middle or last row, for a record that also has valid rows or for a record of its own; both loaders: an error (or panic) is fine - a returned ontology must be walkable and must not list the absent id");
+        let mut base = Facts::default();
+        base.version = (2024, 2, 29);
+        base.terms = vec![Facts::term(1, "All"), Facts::term(118, "Phenotypic abnormality"), Facts::term(200, "A")];
+        base.edges = vec![(118, 1), (200, 118)];
+        for kind in [Kind::Gene, Kind::Omim, Kind::Orpha] {
+            base.anns.push(Facts::ann(kind, 7, "SEVEN", Some(200)));
+            base.anns.push(Facts::ann(kind, 7, "SEVEN", Some(118)));
+            base.anns.push(Facts::ann(kind, 8, "EIGHT", Some(118)));
+        }
+        let rendered = crate::jax::render(&base, &crate::jax::JaxOpts::default());
+        for kind in [Kind::Gene, Kind::Omim, Kind::Orpha] {
+            for absent in [300u32, 9_999_999] {
+                for rec in [7u32, 9] {
+                    for pos in 0..3usize {
+                        for transitive in [false, true] {
+                            if !ctx.take() {
+                                continue;
+                            }
+                            ctx.state();
+                            ctx.exec();
+                            ctx.validated();
+                            ctx.nontrivial();
+                            ctx.transitions(base.n_steps() + 1);
+                            let name = if rec == 7 { "SEVEN" } else { "NINE" };
+                            let insert = |text: &str, row: &str, header: bool| -> String {
+                                let mut lines: Vec<&str> = text.lines().collect();
+                                let first = if header { 1 } else { 0 };
+                                let at = match pos {
+                                    0 => first,
+                                    1 => (first + lines.len()) / 2,
+                                    _ => lines.len(),
+                                };
+                                lines.insert(at.min(lines.len()), row);
+                                let mut out = lines.join("\n");
+                                out.push('\n');
+                                out
+                            };
+                            let mut files = crate::jax::Rendered { obo: rendered.obo.clone(), hpoa: rendered.hpoa.clone(), genes_to_phenotype: rendered.genes_to_phenotype.clone(), phenotype_to_genes: rendered.phenotype_to_genes.clone(), some_term: rendered.some_term };
+                            match kind {
+                                Kind::Gene => {
+                                    files.genes_to_phenotype = insert(&files.genes_to_phenotype, &format!("{rec}\t{name}\tHP:{absent:07}\tUnknown\t-\tOMIM:243400"), true);
+                                    files.phenotype_to_genes = insert(&files.phenotype_to_genes, &format!("HP:{absent:07}\tUnknown\t{rec}\t{name}\tOMIM:243400"), true);
+                                }
+                                Kind::Omim | Kind::Orpha => {
+                                    let db = if kind == Kind::Omim { "OMIM" } else { "ORPHA" };
+                                    files.hpoa = insert(&files.hpoa, &format!("{db}:{rec}\t{name}\t\tHP:{absent:07}\t{db}:{rec}\tTAS\t\t\t\t\tP\tHPO:skoehler[2014-11-27]"), false);
+                                }
+                            }
+                            let case = || json!({"kind": kind.name(), "record": rec, "absent_term": absent, "row_position": (["first", "middle", "last"][pos]), "transitive_loader": transitive, "phenotype.hpoa": files.hpoa, "genes": if transitive { &files.phenotype_to_genes } else { &files.genes_to_phenotype }});
+                            match crate::jax::load(&files, transitive) {
+                                Ok(Err(_)) | Err(_) => {}
+                                Ok(Ok(ont)) => match Obs::of(&ont) {
+                                    Err(i) => ctx.violation("Ontology::from_standard", "returns an ontology with a dangling term id (read API panics) for a row naming an absent term", json!({"case": case(), "observed": i.what})),
+                                    Ok(o) => {
+                                        if o.recs.iter().any(|rs| rs.iter().any(|r| r.terms.contains(&absent))) {
+                                            ctx.violation("Ontology::from_standard", "returns an ontology whose record lists a term that does not exist", json!({"case": case()}));
+                                        }
+                                    }
+                                },
+                            }
+                            ctx.sample(|| json!({"kind": kind.name(), "record": rec, "absent": absent, "position": pos, "transitive": transitive}));
+                        }
+                    }
+                }
+            }
+        }
+        crate::jax::cleanup();
     }
 
     // ---- sub_ontology builds its result through the same builder: the result must be referentially closed
